@@ -710,8 +710,9 @@ func CreatorsFromCreateEvent(createEvent PDU) (creators []string) {
 	var content CreateContent
 	err := json.Unmarshal(createEvent.Content(), &content)
 	if err != nil {
-		// should not be possible as we already have made the PDU
-		panic("invalid create event content: " + string(createEvent.JSON()))
+		// The event parsers do not look inside the content, so this can happen for
+		// create events received over federation: no additional creators then.
+		return creators
 	}
 	creators = append(creators, content.AdditionalCreators...)
 	return creators
